@@ -27,22 +27,40 @@ def main(argv):
     units = cxx2v.load_units()
     todo = closure(units, argv[1:] or [u["name"] for u in units])
     rc = 0
-    failed = set()
+    failed, done = set(), set()
+    import concurrent.futures
     with tempfile.TemporaryDirectory(prefix="cxx2v_") as wd:
-        for u in todo:
-            if any(r in failed for r in u.get("requires", [])):
-                print("cxx2v: unit %s SKIPPED: a required unit failed" % u["name"])
-                failed.add(u["name"])
-                rc = 1
-                continue
-            try:
-                r = cxx2v.generate(u, wd)
-                print("cxx2v: unit %-14s ok  (%d functions -> coq/Gen/Gen_%s.v)" % (u["name"], len(r.order), u["name"]))
-            except cxx2v.Unsupported as ex:
-                print("cxx2v: unit %s FAILED: %s" % (u["name"], ex))
-                failed.add(u["name"])
-                rc = 1
+        pending = list(todo)
+        while pending:
+            # a wave = the units whose requirements are all done (or failed); waves run in parallel processes
+            wave = [u for u in pending if all(r in done or r in failed for r in u.get("requires", []))]
+            if not wave:
+                raise SystemExit("gen_all: cyclic `requires`")
+            pending = [u for u in pending if u not in wave]
+            run = []
+            for u in wave:
+                if any(r in failed for r in u.get("requires", [])):
+                    print("cxx2v: unit %s SKIPPED: a required unit failed" % u["name"])
+                    failed.add(u["name"])
+                    rc = 1
+                else:
+                    run.append(u)
+            with concurrent.futures.ProcessPoolExecutor(max_workers=max(1, min(8, len(run)))) as ex:
+                for u, (ok, msg) in zip(run, ex.map(_one, [(u, wd) for u in run])):
+                    print(msg)
+                    (done if ok else failed).add(u["name"])
+                    if not ok:
+                        rc = 1
     return rc
+
+
+def _one(arg):
+    u, wd = arg
+    try:
+        r = cxx2v.generate(u, wd)
+        return True, "cxx2v: unit %-14s ok  (%d functions -> coq/Gen/Gen_%s.v)" % (u["name"], len(r.order), u["name"])
+    except cxx2v.Unsupported as ex:
+        return False, "cxx2v: unit %s FAILED: %s" % (u["name"], ex)
 
 
 if __name__ == "__main__":
